@@ -27,6 +27,9 @@ use crate::{
 /// Binding power for prefix operators.
 const PREFIX_BP: u8 = 19;
 
+/// Maximum nesting depth of expressions and sub-queries (same limit as `expr::ExprParser`).
+const MAX_DEPTH: usize = 64;
+
 /// Returns binding power for infix operators.
 const fn infix_binding_power(op: BinaryOp) -> (u8, u8) {
     use BinaryOp::*;
@@ -49,6 +52,7 @@ pub struct Parser<'a> {
     lexer: Lexer<'a>,
     current: Token,
     peeked: Option<Token>,
+    depth: usize,
 }
 
 impl<'a> Parser<'a> {
@@ -62,6 +66,7 @@ impl<'a> Parser<'a> {
             lexer,
             current,
             peeked: None,
+            depth: 0,
         }
     }
 
@@ -192,6 +197,11 @@ impl<'a> Parser<'a> {
 
     /// Parses an expression with the given minimum binding power.
     fn parse_expr_bp(&mut self, min_bp: u8) -> ParseResult<Expr> {
+        self.depth += 1;
+        if self.depth > MAX_DEPTH {
+            return Err(ParseError::new(ParseErrorKind::TooDeep, self.current.span));
+        }
+
         let mut lhs = self.parse_prefix_expr()?;
 
         loop {
@@ -216,6 +226,7 @@ impl<'a> Parser<'a> {
             lhs = Expr::new(ExprKind::Binary(Box::new(lhs), op, Box::new(rhs)), span);
         }
 
+        self.depth -= 1;
         Ok(lhs)
     }
 
@@ -556,7 +567,7 @@ impl<'a> Parser<'a> {
         let start = self.expect(&TokenKind::Exists)?.span;
         self.expect(&TokenKind::LParen)?;
         self.expect(&TokenKind::Select)?;
-        let subquery = self.parse_select_body()?;
+        let subquery = self.parse_subquery_body()?;
         let end = self.expect(&TokenKind::RParen)?.span;
         Ok(Expr::new(
             ExprKind::Exists(Box::new(subquery)),
@@ -585,7 +596,7 @@ impl<'a> Parser<'a> {
         // Check for subquery: (SELECT ...)
         let list = if self.check(&TokenKind::Select) {
             self.advance(); // consume SELECT
-            let subquery = self.parse_select_body()?;
+            let subquery = self.parse_subquery_body()?;
             InList::Subquery(Box::new(subquery))
         } else {
             let mut values = Vec::new();
@@ -762,6 +773,17 @@ impl<'a> Parser<'a> {
         Ok(StatementKind::Select(self.parse_select_body()?))
     }
 
+    /// Parses the body of a nested SELECT (sub-query), counting it against the nesting limit.
+    fn parse_subquery_body(&mut self) -> ParseResult<SelectStmt> {
+        self.depth += 1;
+        if self.depth > MAX_DEPTH {
+            return Err(ParseError::new(ParseErrorKind::TooDeep, self.current.span));
+        }
+        let body = self.parse_select_body()?;
+        self.depth -= 1;
+        Ok(body)
+    }
+
     /// Parses a SELECT statement body (after the SELECT keyword).
     /// Used for both standalone SELECT and subqueries.
     fn parse_select_body(&mut self) -> ParseResult<SelectStmt> {
@@ -894,7 +916,7 @@ impl<'a> Parser<'a> {
         let kind = if self.check(&TokenKind::LParen) {
             self.advance(); // consume '('
             self.expect(&TokenKind::Select)?;
-            let subquery = self.parse_select_body()?;
+            let subquery = self.parse_subquery_body()?;
             self.expect(&TokenKind::RParen)?;
             TableRefKind::Subquery(Box::new(subquery))
         } else {
